@@ -144,6 +144,8 @@ func truncOptionTokens() []string {
 			ts = append(ts, "O("+m+"="+v+")")
 		}
 	}
+	ts = append(ts, "O(color=true)", "O(color=true;verbose=true)", "O(color=true;unicode=true)", "O(color=true;depth=n:1)",
+		"O(color=true;raw_string=true)", "O(color=true;colors=O())", "O(color=true;colors=O(number=s:726564;string=n:1))")
 	// both truncations at once
 	for _, v := range []string{"n:1", "n:30", "n:50"} {
 		for _, w := range []string{"n:1", "n:17", "n:50", "n:51"} {
@@ -250,6 +252,42 @@ var optionFns = map[string]bool{
 // inputs that reach the bits format renderer / the dump code
 var optionInputs = []string{"bin:fffe00/24/8", "bin:a8/5/1", "dv:png_sig=s:efbfbd504e470d0a1a0a", "dv:png=O()", "dv:cbor=O()"}
 
+// ---- second order: results of fq functions as inputs of the generic jq value methods ----------
+//
+// producers return fq's special values (open-file value, binaries with pad / range / odd unit,
+// decode values of every kind, the registry, options, …); consumers are the methods every jq
+// value must answer (gojq calls JQValueLength / Index / Slice / Keys / Has / Each / ToGoJQ …).
+
+var soProducers = []string{
+	`"test.png"|open`, `"test.png"|open|tobytesrange`, `"test.png"|open|decode`, `"nofile"|open`,
+	`"abc"|tobytes`, `"abc"|tobits`, `"abc"|tobytes(5)`, `"abc"|tobits(-3)`, `1|tobits(13)`, `"abc"|tobytesrange`, `"abc"|tobitsrange`,
+	`"abcdef"|tobytes[1:3]`, `"abcdef"|tobits[3:7]`, `"abcdef"|tobytes[2:2]`, `[1,2,"a",[3]]|tobytes`, `0|tobytes`, `""|tobytes`,
+	`"abc"|tobytes|.bits`, `"abc"|tobits|.bytes`, `"test.png"|open|.[0:4]`,
+	`"test.png"|open|decode|.chunks`, `"test.png"|open|decode|.chunks[0]`, `"test.png"|open|decode|.signature`,
+	`"test.png"|open|decode|.chunks[0].length`, `"test.png"|open|decode|.chunks[0].type`, `"test.png"|open|decode|.chunks[0].crc`,
+	`"test.png"|open|decode|.chunks[1].data`, `"test.png"|open|decode|tobytesrange`, `"test.png"|open|decode|._error`,
+	`"abc"|tobytes|decode("png")`, `"abc"|tobytes|decode("png")|._error`, `[255]|tobytes|cbor`, `[27,255,255,255,255,255,255,255,255]|tobytes|cbor|.value`,
+	`[194,73,1,0,0,0,0,0,0,0,0]|tobytes|cbor|.value`, `[59,255,255,255,255,255,255,255,255]|tobytes|cbor|.value`, `[251,127,248,0,0,0,0,0,0]|tobytes|cbor|.value`,
+	`"{}"|json`, `"[1,{}]"|json`, `"null"|json`, `_registry`, `_registry.formats.png`, `formats`, `options`, `options({depth:-1})`, `input_filename`, `history`,
+	`stdin_tty`, `stdout_tty`, `_global_state`, `".a[0]"|_query_fromstring`, `"1+"|try _query_fromstring catch .`, `"abc"|tobytes|tovalue`, `"abc"|tobytes|tojson`,
+	`"abc"|tobytes|match("b")`, `"abc"|tobytes|[splits("b")]`, `"test.png"|open|decode|[paths]|.[3]`, `"test.png"|open|decode|[grep_by(format)]`,
+	`"test.png"|open|decode|root`, `"test.png"|open|decode|.chunks[0]|parent`, `"test.png"|open|decode|.chunks[0].type|topath`,
+	`"test.png"|open|decode|torepr`, `"a,b\n1,2"|csv`, `"<a b=\"1\">c</a>"|xml`, `"a: [1]"|yaml`, `"test.png"|open|decode|to_entries`,
+}
+
+var soCore = map[string]bool{"length": true, ".[0]": true, ".[-1]": true, ".[0:1]": true, ".[1:]": true, "keys": true, "has(0)": true,
+	"has(\"a\")": true, "tostring": true, "tojson": true, "type": true, ".[]": true, ".==.": true, ".+.": true, "test(\"a\")": true, "d": true, "display({color:true})": true}
+
+var soConsumers = []string{
+	`length`, `.[0]`, `.[-1]`, `.[1000000000000]`, `.[0:1]`, `.[1:]`, `.[:-1]`, `.[2:1]`, `.[null:null]`, `.[0.5:1.5]`, `keys`, `has(0)`, `has("a")`, `has(null)`,
+	`tostring`, `tojson`, `tonumber`, `type`, `.[]`, `.[]?`, `..`, `.==.`, `.<.`, `.+.`, `.+1`, `.+""`, `.+[]`, `.+{}`, `.-.`, `.*2`, `./.`, `.%3`, `test("a")`, `test(.)`,
+	`to_entries`, `map(.)`, `map_values(.)`, `add`, `any`, `sort`, `unique`, `reverse`, `first`, `last`, `min`, `group_by(.)`, `flatten`, `join(",")`, `.a`, `.size`, `._format`, `.["x"]`,
+	`explode`, `implode`, `ltrimstr("a")`, `ascii_downcase`, `@base64`, `@json`, `@text`, `@uri`, `tovalue`, `toactual`, `not`, `select(.)`, `[paths]`, `getpath(["a",0])`, `path(..)`,
+	`index("a")`, `indices(.)`, `contains(.)`, `inside(.)`, `splits("a")`, `sub("a";"b")`, `isempty(.)`, `env`, `tojson|fromjson`, `[.]|tobytes`, `{a:.}|tojson`,
+	`d`, `dv`, `hexdump`, `tobytes`, `tobits`, `tobytesrange`, `format`, `topath`, `root`, `parent`, `torepr`, `display({color:true})`, `delpaths([[0]])`, `setpath([0];1)`, `.[0]=1`, `del(.[0])`,
+	`to_hex`, `to_base64`, `to_md5`, `from_hex`, `bnot`, `band(.;1)`, `to_radix(2)`, `splits(.)`, `ltrimstr(.)`, `startswith(.)`, `tostream`, `getpath([])`, `limit(1;.[])`, `@sh`, `min_by(.)`,
+}
+
 // generate: quick = a seeded sample per function, thorough = exhaustive for arity <= 2
 // (arity >= 3 pairwise covering), over all pool values in every position.
 func generate(fns []fnInfo, p poolT, cfg hlib.Config, rnd *hlib.Rand) []pcase {
@@ -306,11 +344,18 @@ func generate(fns []fnInfo, p poolT, cfg hlib.Config, rnd *hlib.Rand) []pcase {
 					}
 				}
 			}
-			// a decode value as well (tree + hex columns)
-			if _, ok := p.byTok("dv:png=O()"); ok {
+			// decode values as well (tree + hex columns; the cbor one holds every scalar kind incl.
+			// numbers beyond int64, which the value colouring must know)
+			for _, dvTok := range []string{"dv:png=O()", "dv:cbor=O()"} {
+				if _, ok := p.byTok(dvTok); !ok {
+					continue
+				}
 				for _, lb := range []int{1, 2, 16, 17} {
 					for _, sh := range shapes {
-						cases = append(cases, pcase{fn: fi, toks: []string{"dv:png=O()",
+						if dvTok != "dv:png=O()" && !cfg.Thorough() && rnd.Intn(6) != 0 {
+							continue
+						}
+						cases = append(cases, pcase{fn: fi, toks: []string{dvTok,
 							objTok("byte_colors="+sh, "color=true", fmt.Sprintf("line_bytes=n:%d", lb))}})
 					}
 				}
@@ -345,6 +390,19 @@ func generate(fns []fnInfo, p poolT, cfg hlib.Config, rnd *hlib.Rand) []pcase {
 			}
 		}
 		k := f.arity + 1
+		if f.key() == "@so/1" {
+			// quick: the dozen methods every value must answer for every producer, a seeded third of the rest
+			for _, pr := range soProducers {
+				for ci, co := range soConsumers {
+					if !cfg.Thorough() && !soCore[co] && rnd.Intn(3) != 0 {
+						_ = ci
+						continue
+					}
+					cases = append(cases, pcase{fn: fi, toks: []string{"x:" + pr, "x:" + co}})
+				}
+			}
+			continue
+		}
 		if f.src == "direct" {
 			// @bytecolor: every pair of boundary range ends, one and two entries, on four bytes
 			ends := []string{"n:-9223372036854775808", "n:-1", "n:0", "n:1", "n:65", "n:255", "n:256", "n:300", "n:9223372036854775807"}
